@@ -45,6 +45,7 @@ OPTIONAL_FEATURES = frozenset({
     "allof_unsat",        # ... unsatisfiable conjunctions (gen_valid raises Unsat)
     "not",                # {"type":"string","not":{"enum":[...]}} deny lists
     "not_untyped",        # {"not":{"enum":[...]}} as in the repository fixture (wider than the Rust type)
+    "map_keys",           # maps with constrained keys (propertyNames / one patternProperties entry) and any-valued maps
     "defaults",           # valid defaults on properties and named types
     "invalid_defaults",   # some defaults are NOT valid for their schema (pointers in meta["invalid_defaults"])
     "hostile_names",      # names from the hostile pool
@@ -75,6 +76,7 @@ FEATURE_SETS = {
     "c09": frozenset({"struct", "closed", "strenum", "vec", "map", "option", "int_formats", "bool",
                       "refs", "allof", "allof_closed", "allof_unsat"}),
     "hostile": DEFAULT_FEATURES | {"hostile_names"},
+    "maps": DEFAULT_FEATURES | {"map_keys", "any", "defaults"},
     "all": ALL_FEATURES - {"hostile_names", "invalid_defaults", "allof_unsat", "not_untyped"},
 }
 
@@ -598,7 +600,14 @@ class _Universe:
             t = self.t_ref(guarded)
             return t or self.t_scalar()
         if k == "vec": return {"k": "vec", "t": self.t_any(depth - 1, True, allow_opt=False)}
-        if k == "map": return {"k": "map", "t": self.t_any(depth - 1, True, allow_opt=False)}
+        if k == "map":
+            m = {"k": "map", "t": self.t_any(depth - 1, True, allow_opt=False)}
+            if self.has("map_keys") and self.coin(0.6):
+                m["keys"] = r.choice([{"maxLength": r.randint(3, 63)}, {"minLength": 1}, {"pattern": "^[a-z][a-z0-9_-]*$"},
+                                      {"enum": r.sample(ENUM_VALUES, 3)}, {"pattern": "^x-"}, {"format": "uuid"}])
+                m["via"] = "patternProperties" if "pattern" in m["keys"] and self.coin(0.5) else "propertyNames"
+                if self.coin(0.4): m["t"] = {"k": "any"}
+            return m
         if k == "set": return {"k": "set", "t": self.t_setitem(depth - 1)}
         if k == "arr":
             return {"k": "arr", "t": self.t_any(depth - 1, False, allow_opt=False, inline=False), "n": r.randint(1, 4)}
@@ -907,7 +916,13 @@ class _Printer:
         if k == "tuple":
             return {"type": "array", "items": [self.p(x) for x in t["ts"]],
                     "maxItems": len(t["ts"]), "minItems": len(t["ts"])}
-        if k == "map": return {"type": "object", "additionalProperties": self.p(t["t"])}
+        if k == "map":
+            if t.get("via") == "patternProperties":
+                return {"type": "object", "patternProperties": {t["keys"]["pattern"]: self.p(t["t"])}, "additionalProperties": False}
+            v = self.p(t["t"])
+            m = {"type": "object", "additionalProperties": v}
+            if t.get("keys"): m["propertyNames"] = dict({"type": "string"}, **t["keys"])
+            return m
         if k == "struct": return self.p_struct(t["props"], t["closed"])
         if k == "allof": return {"allOf": [self.p(x) for x in t["parts"]]}
         if k == "enum": return self.p_enum(t)
